@@ -17,6 +17,9 @@ func checkC02(c *Ctx) {
 	// sessions: one decoder / reader instance skips 2..6 consecutive values (state carried between calls,
 	// Reset / reuse after a failed call, Release of the underlying reader between values)
 	c.TraceCheck(famSkipSeq, skipSeqCases(c, c.Pick(1500, 30000)))
+	// implementation level: ReaderSkipDecoder's private buffer (n, len, cap after every value, read through the
+	// hook) against the buffer model driven by the pushdown machine's request sequence (drift only)
+	c.TraceCheck(famRdec, skipSeqCases(c, c.Pick(1500, 20000)))
 	c.Assume("well-formedness is decided by the reference (ThriftSkip.tla), not by the generator; inputs the reference rejects are judged by C08 only")
 }
 
